@@ -184,6 +184,27 @@ def s19b_same_name_wiring(ctx):
     r.inst('Sequence::collapse_timeframe|reduce')
     if not any('std::ops::Add::add' in str(blk) for blk in seq['blocks']):
         r.violate('Sequence::collapse_timeframe|not-via-Add', 'batch collapse does not fold with Add::add', sb.file, sb.line)
+    # every candle of the batch result is the sum of exactly `size` inputs: a returning path of collapse_timeframe that folds candles together
+    # must have cut the input into chunks of `size` first (windows / chunks / chunks_exact / an explicit range slice); a path that folds the
+    # input as a whole (a "short input" fast path) yields a candle of fewer than `size` inputs, which the streaming converter never emits
+    main = next((bj for bj in cands if bj['def'] == base), None)
+    if main is not None:
+        import inline
+        mb = Body(inline.inlined(f, main, 2))
+        CHUNKERS = ('::windows', '::chunks', '::chunks_exact', '::rchunks', '::array_windows', '::array_chunks')
+        FOLDERS = ('::reduce', '::fold', '::sum', 'Add::add', '::map', '::for_each', '::next')
+        r.inst('Sequence::collapse_timeframe|chunked-before-folded')
+        for pf in all_path_facts(mb):
+            if not pf.returns:
+                continue
+            names = [ct[4] for blk, ct, t in pf.calls]
+            folds = any(n_.endswith(FOLDERS) or 'ops::Add' in n_ for n_ in names)
+            chunked = any(n_.endswith(CHUNKERS) for n_ in names) or any('Index<std::ops::Range' in n_ or 'index::SliceIndex' in n_ for n_ in names)
+            if folds and not chunked:
+                r.violate('Sequence::collapse_timeframe|path-folds-unchunked-input', 'collapse_timeframe has a path that combines candles without first cutting the input into '
+                          'chunks of `size` (calls on the path: %s): for an input shorter than `size` it returns a candle of fewer than `size` inputs, which the streaming '
+                          'CollapseTimeframe never emits' % ', '.join(n_.rsplit('::', 1)[-1] for n_ in names[:6]), mb.file, mb.line)
+                break
     return r
 
 
